@@ -48,6 +48,7 @@ THEOREMS = [
     'C17_lattice_dims_rejected',
     'C17_lattice_trailing_range_refuted',
     'C17_lattice_nsurf_exact',
+    'C17_lattice_ranges_checked',
     'C17_facet_range_rejected',
     'C17_facet_check_exact',
     'C17_facet_zero_refuted',
@@ -108,6 +109,13 @@ def classify(cls, where, deck):
                 return 'gq_short_params'
     if cls == 'fill_array_plus3' and where.endswith('+3'):
         return 'fill_array_surplus_3'
+    if cls == 'fill_array_len' and where.endswith('+2'):
+        cid = int(re.search(r'cell (\d+)', where).group(1))
+        cell = [c for c in deck['cells'] if c['id'] == cid][0]
+        m = re.search(r'fill=((?:-?\d+:-?\d+ )+)([-0-9r ]*?)( imp|$)', cell['opts'])
+        array = m.group(2).split()
+        if all(t == '0' for t in array[:-2]):
+            return 'fill_array_surplus_2_void'
     if cls == 'fill_array_surplus_tr':
         return 'fill_array_surplus_tr'
     if cls == 'lattice_trailing':
@@ -131,6 +139,10 @@ WITNESSES = {
         '2 0 -5 fill=1 imp:n=1\n3 0 -6 u=2 imp:n=1\n4 0 5 imp:n=0\n\n'
         '1 px 1\n2 px -1\n3 py 1\n4 py -1\n5 so 10\n6 so 0.5\n\n'
         'tr3 0.25 0 0\n', []),
+    'fill_array_surplus_2_void': (
+        't\n1 0 -1 2 u=1 lat=1 fill=0:1 0:0 0:0 0 0 40 40 imp:n=1\n'
+        '2 0 -5 fill=1 imp:n=1\n4 0 5 imp:n=0\n\n'
+        '1 px 1\n2 px -1\n5 so 10\n\n', []),
     'lattice_trailing_range_unchecked': (
         't\n1 0 -1 2 u=1 lat=1 fill=0:0 0:0 0:1 2 2 imp:n=1\n'
         '2 0 -5 fill=1 imp:n=1\n3 0 -6 u=2 imp:n=1\n4 0 5 imp:n=0\n\n'
@@ -240,6 +252,7 @@ def impl_cellopts(trs, imps, rank, lat_opt, option):
         ParseMCNPCell
     from t4_geom_convert.Kernel.Volume.Lattice import (LatticeBounds,
                                                        LatticeSpec)
+    warnings.simplefilter('ignore')
     pcell = object.__new__(ParseMCNPCell)
     pcell.transforms = {tid: [0.0] * k for tid, k in trs}
     pcell.importances = list(imps)
@@ -777,8 +790,8 @@ def run(res, tier, seed, proofs_ok):
          metas, lambda m: (f'{m[0]} -> {m[1]}', {'input': {'material': m[0]}}))
 
     # ---- 3. decks: control stream, fault injection, sweep -----------------
-    n_valid = 60 if quick else 1500
-    per_class = 12 if quick else 300
+    n_valid = 60 if quick else 1000
+    per_class = 12 if quick else 200
     decks = []      # (deck, fault class or None, where)
     for _ in range(n_valid):
         decks.append((G.gen_valid_deck(rng), None, ''))
@@ -809,7 +822,7 @@ def run(res, tier, seed, proofs_ok):
             res.violation('impl-violation',
                           f'valid deck rejected: {out[2]}: {out[3]}', payload,
                           found_input=True)
-        if cls is not None and out[0] == 'ok':
+        if cls is not None and cls not in G.NEUTRAL and out[0] == 'ok':
             res.violation('impl-violation',
                           f'faulted deck ({cls}: {where}) converted normally',
                           payload, cls=classify(cls, where, deck),
